@@ -220,6 +220,10 @@ func (ex *execution) transport(parent context.Context, n *Node, path string, cal
 		return call(c)
 	case "grpc":
 		var result error
+		if n.Spelling%4 == 2 && sentXid != "" {
+			// a relay: the caller's outgoing metadata already carries the xid of some earlier hop
+			parent = metadata.AppendToOutgoingContext(parent, constant.XidKey, "10.9.8.7:8091:424242")
+		}
 		err := sgrpc.ClientTransactionInterceptor(parent, "/svc/m", nil, nil, nil,
 			func(octx context.Context, method string, req, reply interface{}, cc *grpc.ClientConn, opts ...grpc.CallOption) error {
 				md, _ := metadata.FromOutgoingContext(octx)
